@@ -229,6 +229,44 @@ def run(prog, rep, tier, repo):
             rep.ok('first-occurrence', key, 'replaces only on the strict test %s: ties keep the first index' % verdicts[0][1])
     rep.floor('first-occurrence', 2, 'argmin, argmax')
 
+    # ------------------------------------------------------------------ D3' the running extremum starts where every element can beat it
+    # argmax must start at (or below) the smallest finite f64 / -inf / the first element, argmin at the largest / +inf / the first element:
+    # any other constant hides every element on the wrong side of it (argmax seeded with MIN_POSITIVE returns 0 for all-negative data)
+    import math
+    for name, side in (('argmin', 'hi'), ('argmax', 'lo')):
+        k = ST + 'order::' + name
+        key = 'extreme-seed:%s' % name
+        f0 = prog.func(k)
+        if f0 is None:
+            continue
+        seeds = []
+        for c in f0.calls():
+            if c.path and short(c.path) == 'fold' and len(c.args) >= 2:
+                init = c.args[1]
+                comps = init[3] if tag(init) == 'agg' else (init,)
+                seeds += [z for z in comps if tag(z) == 'const' and z[1] in ('f64', 'f32')]
+        if not seeds:
+            # loop form: constant initial definitions of f64 locals that are later replaced by elements
+            for st in f0.stores():
+                if tag(st.target) == 'local' and f0.body.local_ty(st.target[1]) in ('f64', 'f32') and tag(st.value) == 'const' and \
+                        len([s2 for s2 in f0.stores() if s2.target == st.target]) > 1:
+                    seeds.append(st.value)
+        if not seeds:
+            rep.undecided('extreme-seed', key, 'no constant initial extremum found (seeded with an element, or idiom not read)', site_of(f0.body), proof=False)
+            continue
+        bad = []
+        for z in seeds:
+            v = z[2]
+            okv = (v == -math.inf or v == -1.7976931348623157e308) if side == 'lo' else (v == math.inf or v == 1.7976931348623157e308)
+            if not okv and not (isinstance(v, float) and math.isnan(v)):
+                bad.append(v)
+        if bad:
+            rep.viol('extreme-seed', key, '%s starts its running extremum at %r: elements %s that value can never replace it, so data lying entirely on that '
+                     'side yields index 0 whatever the data' % (name, bad[0], 'below' if side == 'lo' else 'above'), site_of(f0.body))
+        else:
+            rep.ok('extreme-seed', key, 'running extremum starts at %s' % [z[2] for z in seeds])
+    rep.floor('extreme-seed', 2, 'argmin, argmax')
+
     # ------------------------------------------------------------------ D4 wiring
     for name in ('min', 'max'):
         k = ST + 'order::' + name
